@@ -13,6 +13,7 @@ Template directives (lines starting with `//@`):
   //@ loop <k>: <invariant/decreases clauses>  ghost clauses for the k-th loop of the body
   //@ before <unique substring> :: <ghost text>   ghost text inserted before that statement line
   //@ after <unique substring> :: <ghost text>
+  //@ cut_after <marker> :: <text> | cut_from <marker> :: <text>   drop the rest of the body after the marker / from the marker's line on
   <Verus signature with requires/ensures, written from the property>
   //@body                             replaced by `{ <body extracted from /repo, rewritten> }`
 
@@ -484,6 +485,18 @@ def rewrite_body(body, unit, log):
         dropped = body[cut:]
         body = body[:cut] + '\n' + rep + '\n'
         log.append(f"CUT in {unit['id']}: {len(dropped.strip().splitlines())} lines after `{marker}` dropped, replaced by `{rep.strip()}`")
+    if unit.get('cut_from'):
+        # like cut_after, but the cut starts at the BEGINNING of the line that holds the (unique) marker: everything from
+        # that statement to the end of the body is dropped and replaced
+        marker, rep = unit['cut_from']
+        mre = r'\s*'.join(re.escape(tok) for tok in marker.split())
+        ms = list(re.finditer(mre, body))
+        if len(ms) != 1:
+            raise Undecided(f"unit {unit['id']}: cut marker {marker!r} matches {len(ms)}x (lost anchor)")
+        cut = body.rfind('\n', 0, ms[0].start()) + 1
+        dropped = body[cut:]
+        body = body[:cut] + rep + '\n'
+        log.append(f"CUT in {unit['id']}: {len(dropped.strip().splitlines())} lines from `{marker}` on dropped, replaced by `{rep.strip()}`")
     for sub in unit.get('subs', []):
         pat, rep, optional = (sub + (False,))[:3]
         cnt = len(re.findall(pat, body))
@@ -591,6 +604,9 @@ def _parse_lines(lines, path, out):  # list of ('text', str) | ('prelude', width
                 elif key == 'cut_after':
                     a, _, b = val.partition(' :: ')
                     u['cut_after'] = (a, b)
+                elif key == 'cut_from':
+                    a, _, b = val.partition(' :: ')
+                    u['cut_from'] = (a, b)
                 elif key == 'closures':
                     u['closures'] = val.split()
                 elif key == 'closure0':
